@@ -155,6 +155,12 @@ func ClassifyReason(r error) (J, bool) {
 	if reKeysValues.MatchString(msg) {
 		return J{"c": "arity"}, true
 	}
+	if strings.HasSuffix(msg, "cannot be iterated") {
+		return J{"c": "type"}, true
+	}
+	if strings.Contains(msg, "executable file not found") {
+		return J{"c": "external"}, true
+	}
 	if strings.HasPrefix(msg, "cannot get length of") {
 		return J{"c": "type"}, true
 	}
